@@ -324,12 +324,16 @@ pub trait Labels {
     }
 
     fn labels(&self) -> Vec<Self::Elem> {
-        self.label_set()
+        let mut labels: Vec<_> = self
+            .label_set()
             .into_iter()
             .flatten()
             .collect::<HashSet<_>>()
             .into_iter()
-            .collect()
+            .collect();
+        // hash-set iteration order differs from run to run; return a stable order
+        labels.sort_unstable();
+        labels
     }
 
     fn combined_labels<T>(&self, other: &T) -> Vec<Self::Elem>
@@ -339,13 +343,16 @@ pub trait Labels {
         let mut combined = self.label_set();
         combined.extend(other.label_set());
 
-        combined
+        let mut labels: Vec<_> = combined
             .iter()
             .flatten()
             .collect::<HashSet<_>>()
             .into_iter()
             .cloned()
-            .collect()
+            .collect();
+        // hash-set iteration order differs from run to run; return a stable order
+        labels.sort_unstable();
+        labels
     }
 }
 
